@@ -33,7 +33,7 @@ COMPONENTS = {
 }
 ASSUMPTIONS = ["TEMP registers, call-depth counters and perf counters themselves are not compared (they are the hidden state)"]
 PROBES = ["prefix_block", "prefix_call", "scramble", "focus_ret", "focus_block", "split_in_handler",
-          "repeat_identical"]
+          "repeat_identical", "tracing_on_off"]
 FOCUS_OPS = [0x06, 0x07, 0x01, 0x04, 0x05, 0xCB, 0xCF, 0xD3, 0xDB, 0xE3, 0xEB, 0xF3, 0xFB, 0x54, 0x55, 0x5C, 0x5D, 0xC4, 0xC5,
              0xD4, 0xD5, 0xEC, 0xFC, 0xC0, 0xC1, 0xC2, 0xC3, 0xDD, 0xED, 0x6C, 0x7C, 0x28, 0x29, 0x2A, 0x2B, 0x2C, 0x2D, 0x2E, 0x2F,
              0x38, 0x39, 0x3A, 0x3B, 0x3C, 0x3D, 0x3E, 0x3F, 0x44, 0x45, 0x46, 0x4C, 0x4D, 0x4E, 0x56, 0x5E, 0xE4, 0xE5, 0xF4, 0xF5]
@@ -42,20 +42,36 @@ FOCUS_OPS = [0x06, 0x07, 0x01, 0x04, 0x05, 0xCB, 0xCF, 0xD3, 0xDB, 0xE3, 0xEB, 0
 def batches(tier: str) -> List[Batch]:
     if tier == "quick":
         return [Batch("rs-hist", "rs-core", 20000, 200), Batch("py-hist", "py-core", 480, 6),
-                Batch("rs-split", "rs-machine", 3000, 100), Batch("py-split", "py-machine", 240, 6)]
+                Batch("rs-split", "rs-machine", 3000, 100), Batch("py-split", "py-machine", 240, 6),
+                Batch("py-trace", "py-machine", 160, 8)]
     return [Batch("rs-hist", "rs-core", 1500000, 500), Batch("py-hist", "py-core", 150000, 50),
-            Batch("rs-split", "rs-machine", 150000, 300), Batch("py-split", "py-machine", 8000, 10)]
+            Batch("rs-split", "rs-machine", 150000, 300), Batch("py-split", "py-machine", 8000, 10),
+            Batch("py-trace", "py-machine", 6000, 10)]
 
 
 def generate(batch: str, r: Rng, idx: int, tier: str) -> Dict[str, Any]:
+    if batch == "py-trace":
+        # the same machine, program and event schedule with tracing off and on: the tracing switch is hidden state
+        feat = machine.gen_features(r.child("feat"), {"timers": True, "imr_writes": True, "isr_writes": True, "wait": True,
+                                                      "halt": True, "ir": True, "calls": True, "far_calls": False,
+                                                      "nested": False, "off": False, "keys": True, "onk": True})
+        feat["keys"] = True
+        scn = machine.gen_machine_scenario(r, "py-machine", feat, boundaries=r.choice([30, 60, 120]), faulty=True)
+        scn["kind"] = "trace"
+        return scn
     if batch.endswith("split"):
         ex = "rs-machine" if batch.startswith("rs") else "py-machine"
         feat = machine.gen_features(r.child("feat"), {"timers": True, "imr_writes": True, "isr_writes": True, "wait": True,
                                                       "halt": True, "ir": True, "calls": True, "far_calls": True,
                                                       "nested": True, "off": False, "keys": False, "onk": False})
         feat["timers"] = True
+        # programs that read-modify-write the memory-card window: state an earlier machine of the same process left
+        # behind anywhere outside itself would show in the next one
+        feat["card_rw"] = r.child("card").chance(1, 2)
         n = r.choice([20, 60, 150] if ex == "py-machine" else [20, 60, 150, 300])
         scn = machine.gen_machine_scenario(r, ex, feat, boundaries=n, faulty=False)
+        if feat["card_rw"]:
+            scn["watch"] = list(scn.get("watch", [])) + [[0x40010, 2], [0x47FF0, 1], [0x4FFFE, 1]]
         scn["kind"] = "split"
         scn["split"] = r.range(1, n - 1)
         return scn
@@ -170,7 +186,32 @@ def _exec_split(scn: Dict[str, Any]) -> Dict[str, Any]:
     return res
 
 
+def _exec_trace(scn: Dict[str, Any]) -> Dict[str, Any]:
+    off = machine.run_machine(scn)
+    on_scn = dict(scn)
+    on_scn["trace"] = True
+    try:
+        on = machine.run_machine(on_scn)
+    finally:
+        try:
+            from pce500.tracing.perfetto_tracing import tracer
+            tracer.safe_stop()
+        except Exception:
+            pass
+        import glob
+        import os
+        for f in glob.glob(os.path.join(machine.scratch_dir(), "trace-*")):
+            try:
+                os.remove(f)
+            except OSError:
+                pass
+    return {"off": {"obs": [o[:machine.O_SHADOW] for o in off["obs"]], "err": off["err"]},
+            "on": {"obs": [o[:machine.O_SHADOW] for o in on["obs"]], "err": on["err"]}}
+
+
 def execute(scn: Dict[str, Any]) -> Dict[str, Any]:
+    if scn["kind"] == "trace":
+        return _exec_trace(scn)
     if scn["kind"] == "split":
         return _exec_split(scn)
     return _exec_hist_py(scn) if scn["exec"] == "py-core" else _exec_hist_rs(scn)
@@ -190,6 +231,26 @@ def _first_diff(a: List[list], b: List[list]):
 def check(scn: Dict[str, Any], hist: Dict[str, Any]) -> List[Dict[str, Any]]:
     ex = scn["exec"]
     viols: List[dict] = []
+    if scn["kind"] == "trace":
+        names = ["PC", "BA", "I", "X", "Y", "U", "S", "F", "power", "IMR", "ISR", "cycles", "instructions", "irq_total",
+                 "irq_depth", "in_interrupt", "irq_pending", "next_mti", "next_sti", "key_latched", "fifo_len", "kil", "stack",
+                 "memory"]
+        a, b = hist["off"]["obs"], hist["on"]["obs"]
+        for k in range(min(len(a), len(b))):
+            # irq_total / irq_depth are the tracer's own bookkeeping (the interrupt-context stack is only kept while
+            # tracing): diagnostics, not machine state
+            bad = next((i for i in range(min(len(names), len(a[k]), len(b[k])))
+                        if names[i] not in ("irq_total", "irq_depth") and a[k][i] != b[k][i]), None)
+            if bad is not None:
+                viols.append({"cls": "history_dependence", "executor": ex, "where": {"field": names[bad], "hidden": "tracing_switch"},
+                              "msg": f"boundary {k}: {names[bad]} = {_s(a[k][bad])} with tracing off, {_s(b[k][bad])} with "
+                                     f"tracing on", "at": k})
+                break
+        else:
+            if len(a) != len(b) or hist["off"]["err"] != hist["on"]["err"]:
+                viols.append({"cls": "history_dependence", "executor": ex, "where": {"field": "run_length", "hidden": "tracing_switch"},
+                              "msg": f"runs end differently with tracing off/on: {hist['off']['err']} vs {hist['on']['err']}", "at": 0})
+        return viols
     if scn["kind"] == "split":
         names = ["PC", "BA", "I", "X", "Y", "U", "S", "F", "power", "IMR", "ISR", "cycles", "instructions", "irq_total",
                  "irq_depth", "in_interrupt", "irq_pending", "next_mti", "next_sti", "key_latched", "fifo_len", "kil", "stack",
@@ -232,6 +293,12 @@ def _s(v):
 
 def stats(scn: Dict[str, Any], hist: Dict[str, Any]) -> Dict[str, Any]:
     probes: Dict[str, int] = {}
+    if scn["kind"] == "trace":
+        obs = hist["off"]["obs"]
+        probes["tracing_on_off"] = 1
+        return {"nontrivial": len(obs) > 5, "sig": digest([scn["prog"]["image"], scn["timer"], scn["ops"]]),
+                "faults": {"tracing_switched_on": 1}, "probes": probes, "cycles": obs[-1][machine.O_CYC] if obs else 0,
+                "boundaries": 2 * len(obs)}
     if scn["kind"] == "split":
         w = hist["whole"]
         probes["repeat_identical"] = 1
@@ -257,6 +324,9 @@ def stats(scn: Dict[str, Any], hist: Dict[str, Any]) -> Dict[str, Any]:
 
 
 def sample(scn: Dict[str, Any], hist: Dict[str, Any]) -> Dict[str, Any]:
+    if scn["kind"] == "trace":
+        return {"executor": scn["exec"], "boundaries": scn["boundaries"], "ops": scn["ops"][:8],
+                "tracing_off": [o[:12] for o in hist["off"]["obs"][:4]], "tracing_on": [o[:12] for o in hist["on"]["obs"][:4]]}
     if scn["kind"] == "split":
         return {"executor": scn["exec"], "boundaries": scn["boundaries"], "split": scn["split"], "whole": hist["whole"][:14],
                 "split_obs": hist["split"][:14]}
@@ -266,6 +336,10 @@ def sample(scn: Dict[str, Any], hist: Dict[str, Any]) -> Dict[str, Any]:
 
 
 def shrink(scn: Dict[str, Any]):
+    if scn["kind"] == "trace":
+        from . import c12
+        yield from c12.shrink(scn)
+        return
     if scn["kind"] == "split":
         n = scn["boundaries"]
         for nb in (n // 2, n - 1):
